@@ -108,7 +108,7 @@ def Attrs.validate (hrp : String) (orbAddr : Bytes) : Attrs → Res Unit
       else if hmeta != "" && !(hmeta.startsWith Gen.hypHookMetadataPrefix
                 && isHexString (hmeta.drop Gen.hypHookMetadataPrefix.length).toString) then .err "hyp:metadata"
       else if feeAmt < 0 then .err "hyp:fee-negative"
-      else if feeAmt != 0 && !validDenom feeDenom then .err "hyp:fee-denom"
+      else if (feeAmt != 0 || feeDenom != "") && !validDenom feeDenom then .err "hyp:fee-denom"
       else .ok ()
   | .internal recipient =>
       if recipient == "" then .err "internal:empty"
